@@ -155,3 +155,102 @@ Definition final_cfg (times : list Qc) (t : Qc) : list bool :=
   | t1 :: rest => if qlt t t1 then cfg_after sws t else cfg_after sws (last_instant t1 rest t)
   end.
 End Handover.
+
+(* ==== MODEL OF THE LOOP OF Netlist.convert_IVP (lcapy/netlist.py) =====================================
+   The translator tools/tr_switch.py reads the loop
+
+       cct = self; before = None; tprev = 0
+       for m, time in enumerate(times):
+           if time > t: break
+           if before is None:  before = <recv>.replace_switches_before(time);  T = <texp>
+           else:               before = <bexp>;                                T = <texp>
+           cct = <recv>.replace_switches(time).initialize(before, T)
+           tprev = time
+
+   into a [loopdef]; [run_loop] executes it on switch-level circuits (every switch either still
+   live or already replaced by a wire/open circuit) and records, per initialize(before, T) call,
+   the switch configuration of `before`, T, and whether `before` derives from the previous initial
+   value problem (and so carries its initial conditions; the original netlist `self` never does).  [run_loop_spec]: the canonical loop
+   [loop_ok_def] produces exactly the specification's hand-overs for EVERY list of instants. *)
+Inductive recv := RSelf | RCur.
+Inductive bexp := BCur | BBefore (r : recv).
+Inductive texp := TTime | TRel | TZero.
+Record loopdef := LoopDef {
+  ld_break_strict : bool;      (* true: `if time > t: break`;  false: `if time >= t: break` *)
+  ld_first_before : recv; ld_first_T : texp;
+  ld_next_before : bexp; ld_next_T : texp;
+  ld_after : recv }.
+Definition loop_ok_def : loopdef := LoopDef true RSelf TTime BCur TRel RSelf.
+
+Definition cstate := list (sw + bool).
+Definition live (sws : list sw) : cstate := map inl sws.
+Definition crepl (cmp : Qc -> Qc -> bool) (t : Qc) (c : cstate) : cstate :=
+  map (fun x => match x with inl s => inr (closed (sw_kind s) (cmp t (sw_time s))) | inr b => inr b end) c.
+Definition ccfg (c : cstate) : list bool := map (fun x => match x with inl _ => false | inr b => b end) c.
+Lemma ccfg_crepl_live cmp t sws : ccfg (crepl cmp t (live sws)) = repl cmp t sws.
+Proof. unfold ccfg, crepl, live, repl. rewrite !map_map. reflexivity. Qed.
+Lemma crepl_replaced cmp cmp' t t' sws : crepl cmp t (crepl cmp' t' (live sws)) = crepl cmp' t' (live sws).
+Proof. unfold crepl, live. rewrite !map_map. apply map_ext. intros s. reflexivity. Qed.
+
+Definition tentry := (list bool * Qc * bool)%type.     (* (configuration of `before`, T, `before` is the previous IVP) *)
+Section Loop.
+Variable d : loopdef.
+Variable sws : list sw.
+Definition pick (r : recv) (cur : cstate) : cstate := match r with RSelf => live sws | RCur => cur end.
+Definition tval (e : texp) (time tprev : Qc) : Qc := match e with TTime => time | TRel => (time - tprev)%Qc | TZero => 0%Qc end.
+Definition stop (time t : Qc) : bool := if ld_break_strict d then qlt t time else qle t time.
+(* state: current circuit, has `before` been set, tprev *)
+Fixpoint loop_from (cur : cstate) (isset : bool) (tprev : Qc) (times : list Qc) (t : Qc) : list tentry * cstate :=
+  match times with
+  | [] => ([], cur)
+  | time :: rest =>
+      if stop time t then ([], cur)
+      else
+        let before := if isset
+                      then match ld_next_before d with
+                           | BCur => (cur, true)
+                           | BBefore r => (crepl before_spec time (pick r cur), match r with RSelf => false | RCur => true end)
+                           end
+                      else (crepl before_spec time (pick (ld_first_before d) cur), false) in
+        let T := tval (if isset then ld_next_T d else ld_first_T d) time tprev in
+        let cur' := crepl after_spec time (pick (ld_after d) cur) in
+        let (tr, fin) := loop_from cur' true time rest t in
+        ((ccfg (fst before), T, snd before) :: tr, fin)
+  end.
+Definition run_loop (times : list Qc) (t : Qc) : list tentry * cstate :=
+  match times with
+  | [] => ([], live sws)
+  | t1 :: _ => if qlt t t1 then ([], crepl after_spec t (live sws)) else loop_from (live sws) false 0%Qc times t
+  end.
+End Loop.
+
+(* the specification's hand-overs with the provenance flag *)
+Fixpoint trace_rest3 (sws : list sw) (tprev : Qc) (times : list Qc) (t : Qc) : list tentry :=
+  match times with
+  | [] => []
+  | tk :: rest => if qlt t tk then [] else (cfg_after sws tprev, (tk - tprev)%Qc, true) :: trace_rest3 sws tk rest t
+  end.
+Definition trace_spec3 (sws : list sw) (times : list Qc) (t : Qc) : list tentry :=
+  match times with
+  | [] => []
+  | t1 :: rest => if qlt t t1 then [] else (cfg_before sws t1, t1, false) :: trace_rest3 sws t1 rest t
+  end.
+Lemma trace_rest3_forget sws : forall times tprev t,
+  map (fun e : tentry => (fst (fst e), snd (fst e))) (trace_rest3 sws tprev times t) = trace_rest sws tprev times t.
+Proof. induction times as [|tk rest IH]; intros tprev t; cbn [trace_rest3 trace_rest map]; [reflexivity|].
+  destruct (qlt t tk); [reflexivity|]. cbn [map fst snd]. rewrite IH. reflexivity. Qed.
+
+Lemma loop_ok_rest sws : forall times tprev t,
+  loop_from loop_ok_def sws (crepl after_spec tprev (live sws)) true tprev times t =
+  (trace_rest3 sws tprev times t, crepl after_spec (last_instant tprev times t) (live sws)).
+Proof. induction times as [|tk rest IH]; intros tprev t; cbn [loop_from trace_rest3 last_instant]; [reflexivity|].
+  unfold stop. cbn [loop_ok_def ld_break_strict ld_next_before ld_next_T ld_after pick tval fst snd].
+  destruct (qlt t tk); [reflexivity|]. rewrite IH. rewrite ccfg_crepl_live. reflexivity. Qed.
+(* the canonical loop realises the specification: any switches, any list of instants, any query time *)
+Theorem run_loop_spec sws times t : times <> [] ->
+  fst (run_loop loop_ok_def sws times t) = trace_spec3 sws times t /\
+  ccfg (snd (run_loop loop_ok_def sws times t)) = final_cfg sws times t.
+Proof. destruct times as [|t1 rest]; [congruence|]. intros _. unfold run_loop, trace_spec3, final_cfg.
+  destruct (qlt t t1) eqn:E; [split; [reflexivity | apply ccfg_crepl_live]|].
+  cbn [loop_from]. unfold stop. cbn [loop_ok_def ld_break_strict ld_first_before ld_first_T ld_after pick tval fst snd]. rewrite E.
+  rewrite loop_ok_rest. cbn [fst snd]. rewrite !ccfg_crepl_live. split; reflexivity. Qed.
